@@ -803,8 +803,8 @@ PROPS = {
     "C15": harness_prop(
         "C15", "runtime monitor: traversal helpers vs own DFS/BFS over the token tree",
         "For every accepted case of a non-silent rule: children() vs as_token().children, as_thin_token vs as_token, span(), pre-order with depths vs own DFS, level-order vs own BFS, format_as_tree vs own rendering, callback-error propagation, nesting and sibling order of spans.",
-        "the token tree itself is tied to pest by C02",
-        {"pairs_checked": 20000, "trees_traversed": 20000, "tokens_traversed": 50000}),
+        "as_token() is also compared with the reference tree (children() is the primitive every helper is built on, so a fault in it leaves the helpers consistent with each other); a difference that is exactly a known finding of C02 is counted, not reported",
+        {"pairs_checked": 20000, "trees_traversed": 20000, "tokens_traversed": 50000, "tokens_tied_to_reference": 20000}),
     "C16": harness_prop(
         "C16", "runtime monitor: generated getters (emit_rule_reference) vs mention labels recorded by the reference interpreter",
         "For every accepted case every generated getter of the entry rule is called and flattened (Vec-major, tuple-slot-minor); node count and spans must equal the matches refpeg committed directly in the rule's own expression in derivation order, the static Option/Vec/tuple shape must equal the shape computed from the optimized expression, and the addresses of the nodes handed out must be, in order, the addresses of the nodes the structure walker reaches inside the rule's content (identity, independent of the model).",
